@@ -23,6 +23,8 @@ GROUPS = {
     "derive": ("graphql_query_derive/src/", ["C18", "C02", "C05"]),
     "client": ("graphql_client/src/", ["C01", "C03", "C05", "C15", "C16"]),
     "cli": ("graphql_client_cli/src/", ["C19", "C20"]),
+    # the deserialized introspection result (both response shapes) and the introspection queries the CLI sends
+    "introspection": ("graphql-introspection-query/src/", ["C07", "C20"]),
 }
 
 
